@@ -18,18 +18,22 @@ RULE = ('cases: PyRt.last_day vs calendar.monthrange for every month of 1900..21
         'equal, 0 and 17, Null entries, 0..4 weekly entries per day, unsorted and wildcard times in a minority, open/closed effective periods) '
         'evaluated by LocalScheduleInterpreter.eval on real LocalScheduleObject instances at entry times, +-1 hundredth, and random '
         'instants, inside and outside the effective period; timer-driven multi-day runs of real objects under the virtual clock '
-        '(TZ=UTC) including effective-period entry and exit.  direct only: 6..10 schedule objects in one application with 20..40 '
+        '(TZ=UTC) including effective-period entry and exit; leap-rule boundary years (1900, 1904, 1996, 2000, 2004, 2096, 2100, 2104) x last-day / week-of-month 6..9 masks and '
+        'exceptions in force by month-end patterns on their late-February days; schedules with 2..4 exceptions of different priority all in force on the same day; '
+        'under POSIX DST zones (subprocesses): datetime_to_time on change days / summer / winter / year-end days incl. 24:00:00 and wildcards, Date.now/Time.now around the changes, '
+        'timer-driven objects compared by present value and armed instant, against ScheduleTz fed the zone\'s offset-change table (no input inside the skipped/repeated hour).  direct only: 6..10 schedule objects in one application with 20..40 '
         'run-time weeklySchedule rewrites (re-installed timers) sampled every 15 minutes for 3 days; timer-driven histories that begin '
         'before / inside / after the effective period whose start and end dates carry day-of-week 255 or specific and are otherwise specific, '
         'open, any-year or any-month, run over the period boundaries and midnights with the object\'s own pure eval as oracle, no exception '
         'escaping process_task and the task armed at every probe; 3 objects run across both '
         'UTC-offset change days of random years in subprocesses with TZ=EST5EDT,M3.2.0,M11.1.0 and TZ=AEST-10AEDT,M10.1.0,M4.1.0/3, '
-        'judged every 15 local minutes by local wall-clock reading (entries before and after the change, none inside 01:00-02:59).  non-trivial = a mask with a set and a clear bit, an evaluation that '
+        'and in the middle of daylight time and of standard time of those years, judged every 15 local minutes by local wall-clock reading (entries before and after the change, none inside 01:00-02:59) '
+        'and, after every firing, by the local reading of the armed instant = the transition the object\'s own eval reported.  non-trivial = a mask with a set and a clear bit, an evaluation that '
         'is inside the effective period with at least one entry in force, a run with >= 3 firings; distinct by (operation, input).')
 TRUSTED = ['model coq/theories/ScheduleEval.v written by hand after local/schedule.py:216-247,448-603 (line numbers of the fixed worktree) (tie = correspondence); '
            'gen/ScheduleFns.v is the AST translation of match_date/match_date_range/match_weeknday (theorems are about that text)',
-           'time.mktime/time.localtime (CPython/libc, POSIX TZ rules): modelled only for a constant UTC offset (ScheduleEval.normalise); '
-           'for zones with offset changes datetime_to_time is judged on the implementation by local wall-clock reading (ScheduleSpec.dtt_requirement)',
+           'time.mktime/time.localtime (CPython/libc, POSIX TZ rules): modelled by ScheduleTz.v (localtime_z, mktime_z) for zones with two offsets, tie = correspondence under two DST rules with the zone given '
+           'as the table of offset changes read off time.localtime; inside the skipped/repeated hour libc\'s choice is not modelled',
            'datetime.date (used as the calendar oracle for day-of-week and month lengths)',
            'the direct interpreter `spec_eval` in harness/props/c20.py (independent reading of clause 12.24.4)']
 ASSUMPTIONS = ['dates are real calendar days of 1900..2154 with the matching day-of-week field (what Date.now() produces)',
